@@ -209,7 +209,7 @@ Definition from_ordinal_padded (iv ulength pad : Z) : cres :=
       let cp := iv mod 2097152 in
       if (65536 <=? cp) && (cp <=? 1114111) then CText (pads ++ [cp]) else CUnicodeDecodeError
   else if iv <=? 127 then                                    (* BuildFromAscii(ulength, {(char)value}, 1, 0, pad) *)
-    (if iv <? 0 then CAbort else CText (pads ++ [iv]))
+    (let c := iv mod 256 in if 127 <? c then CAbort else CText (pads ++ [c]))
   else match from_ordinal iv with
        | CText l => CText (pads ++ l)
        | e => e
